@@ -40,6 +40,9 @@ def gen_cases(tier, seed):
         ops = []
         for j in range(nops):
             ops.append(r.choice(["api", "api", "asm", "futil", "api-multi", "futil-select"]))
+        if k % 4 == 1:
+            # an addition that cannot be written (a name with a character no tape or disk can hold) somewhere after the first save
+            ops.insert(r.randrange(1, len(ops) + 1), "asm-unwritable")
         yield {"id": "hist/%d" % k, "kind": "history", "medium": medium, "ops": ops, "fill": r.random() < 0.15 and medium == "dsk"}
     # in-memory histories on ONE DiskFile object: add, list, add, list ... (what was listable must stay listable)
     for k in range(400 if thorough else 40):
@@ -145,6 +148,27 @@ def run_history(case, ctx):
                     vf.save_virtual_file(append_mode=True)
                 except Exception as e:
                     failed = e
+            elif op == "asm-unwritable":
+                open(os.path.join(d, "p.asm"), "w").write(" ORG $1000\n LDA #1\n RTS\n")        # no NAM: --name names the file
+                nm = r.choice(["AB\u20ac", "\u0100", "N\u4e2d"])
+                res = fsmon.run_cli("assembler.py", ["p.asm", "--to_" + medium, "img." + medium, "--append", "--name", nm], d)
+                after_ = open(path, "rb").read() if os.path.exists(path) else None
+                ctx.mon("unwritable-additions")
+                if after_ == before:
+                    failed = "refused: " + res.out[-80:]
+                    new = []
+                else:
+                    # it went through after all: then it is an ordinary addition (the name is compared as the tool stored it)
+                    kind_, got_ = hostcli.kind_of(after_ or b"")
+                    if len(got_) == len(shadow) + 1:
+                        new = [{"name": got_[-1]["name"], "ext": "BIN", "type": 2, "dtype": 0, "load": 0x1000, "exec": 0x1000, "data": bytes([0x86, 1, 0x39]).hex()}]
+                    else:
+                        ctx.violation("host-history", "history.asm-unwritable", "UNWRITABLE-ADDITION-DAMAGED-HOST-FILE",
+                                      {"show": "%s step %d: --append --name %r left %s bytes (%s, %d files) where %d files were stored: %s" % (
+                                          case["id"], step, nm, len(after_) if after_ is not None else None, kind_, len(got_), len(shadow), res.out.strip()[-70:])},
+                                      {"medium": medium})
+                        ok = False
+                        break
             elif op == "asm":
                 nm = "P%d" % step
                 if shadow and r.random() < 0.35:
